@@ -132,6 +132,7 @@ type sched struct {
 	Mode       string            `json:"mode"`
 	N          int               `json:"n"`
 	Sample     int               `json:"sample"` // 0 = all cases
+	GoneSample int               `json:"goneSample"` // c06: > 0 = all cases without a go-away upstream and this many with one
 	Churn      int               `json:"churn"`
 	PikoBin    string            `json:"pikoBin"`
 	LogDir     string            `json:"logDir"`
@@ -840,6 +841,21 @@ func main() {
 			fail(err)
 		}
 		cases := allC06(c.ids())
+		if sf.GoneSample > 0 {
+			var plain, gone []c06case
+			for _, cs := range cases {
+				if len(cs.gone) == 0 {
+					plain = append(plain, cs)
+				} else {
+					gone = append(gone, cs)
+				}
+			}
+			rng.Shuffle(len(gone), func(i, j int) { gone[i], gone[j] = gone[j], gone[i] })
+			if sf.GoneSample < len(gone) {
+				gone = gone[:sf.GoneSample]
+			}
+			cases = append(plain, gone...)
+		}
 		if sf.Sample > 0 && sf.Sample < len(cases) {
 			rng.Shuffle(len(cases), func(i, j int) { cases[i], cases[j] = cases[j], cases[i] })
 			cases = cases[:sf.Sample]
